@@ -160,10 +160,24 @@ func checkSchemaAttrs(path string, attrs map[string]tfsdk.Attribute, m *model.Ms
 		*count++
 		p := path + "." + a.Name
 		if a.Custom != nil {
-			// the hook's sentinel attribute; what the hook received is checked by C17
+			// the hook's sentinel attribute; the call itself is checked by C17
 			if mode.names {
 				if got.Type == nil || !got.Type.Equal(support.CustomType{Suffix: a.Custom.Suffix}) {
 					return fmt.Sprintf("schema %s: custom field is not the attribute returned by GenSchema%s (type %s)", p, a.Custom.Suffix, typeName(got.Type))
+				}
+			}
+			if mode.flags {
+				// the harness's hook echoes what it was given (flags, validators, plan modifiers, and the
+				// description behind a "hook:<suffix>:" prefix): "called with the description and flags
+				// the field would otherwise get"
+				prefix := "hook:" + a.Custom.Suffix + ":"
+				if !strings.HasPrefix(got.Description, prefix) {
+					return fmt.Sprintf("schema %s: custom attribute does not come from GenSchema%s (description %q)", p, a.Custom.Suffix, got.Description)
+				}
+				echo := got
+				echo.Description = strings.TrimPrefix(got.Description, prefix)
+				if msg := checkFlags(p, echo, a); msg != "" {
+					return msg + " (attribute passed to the custom-type hook)"
 				}
 			}
 			continue
